@@ -30,7 +30,7 @@ Emits(rr) ==
             /\ EmitCase("strict.tensor_operations", P, [ops |-> ops]) /\ EmitCase("hyper.tensor_operations", P, [ops |-> ops])
     [] kind = "types" -> /\ EmitCase("strict.identity", P, [w |-> rr[1]]) /\ EmitCase("strict.twist", P, [a |-> rr[1], b |-> rr[2]])
                          /\ EmitCase("strict.singleton", P, [x |-> 3, a |-> rr[1], b |-> rr[2]])
-                         /\ EmitCase("hyper.discrete", P, [w |-> rr[1]]) /\ EmitCase("lax.identity", P, [w |-> rr[1]])
+                         /\ EmitCase("hyper.discrete", P, [w |-> rr[1]]) /\ EmitCase("lax.identity", P, [w |-> rr[1]]) /\ EmitCase("lax.h.discrete", P, [w |-> rr[1]])
                          /\ EmitCase("lax.twist", P, [a |-> rr[1], b |-> rr[2]]) /\ EmitCase("lax.singleton", P, [x |-> 3, a |-> rr[1], b |-> rr[2]])
                          /\ (rr[2] = <<>> => EmitCase("hyper.empty", P, [u |-> 0]) /\ EmitCase("lax.empty", P, [u |-> 0]) /\ EmitCase("strict.unit", P, [u |-> 0]) /\ EmitCase("lax.unit", P, [u |-> 0]))
 Load == /\ stage >= 1 /\ stage <= Depth /\ kind' = kind
